@@ -226,7 +226,7 @@ func (l filterList) String() string {
 
 type interFieldFilter rule.FilterSpec
 
-var comparisonRegexp = regexp.MustCompile(`(\w+)\s*(!?=)(\w+)`)
+var comparisonRegexp = regexp.MustCompile(`^(\w+)\s*(!?=)(\w+)$`)
 
 func (f *interFieldFilter) Set(value string) error {
 	values := comparisonRegexp.FindStringSubmatch(value)
@@ -245,7 +245,7 @@ func (f *interFieldFilter) Set(value string) error {
 
 type valueFilter rule.FilterSpec
 
-var filterRegexp = regexp.MustCompile(`(\w+)\s*(<=|>=|&=|=|!=|<|>|&)(\S+)`)
+var filterRegexp = regexp.MustCompile(`(?s)^(\w+)\s*(<=|>=|&=|=|!=|<|>|&)(.+)$`)
 
 func (f *valueFilter) Set(value string) error {
 	values := filterRegexp.FindStringSubmatch(value)
